@@ -312,6 +312,43 @@ func oracleC09Resume(f PbfFile, stop int, procs int, skipNodes bool) {
 			vAssert(pbfSame(res.Objects[i], want[i]))
 		}
 	}
+	// the offsets a resumed scan reports are relative to where it started: stopping it again and resuming
+	// at base + its offset neither loses nor repeats an element (the first block of a resumed scan is at 0)
+	if len(want) > 0 {
+		k2 := pbfAbs(stop/3)%len(want) + 1
+		s2 := New(context.Background(), bytes.NewReader(data[off:]), pbfAbs(procs)%4+1)
+		s2.SkipNodes = skipNodes
+		n2 := 0
+		for n2 < k2 && s2.Scan() {
+			n2++
+		}
+		vAssert(n2 == k2)
+		off2 := s2.FullyScannedBytes()
+		s2.Close()
+		// block of the k2-th object of the resumed scan
+		idx := 0
+		for i := range all {
+			if blockOf[i] >= b {
+				idx++
+				if idx == k2 {
+					b2 := blockOf[i]
+					vAssert(off+off2 == int64(starts[b2+1]))
+					var want2 []osm.Object
+					for j := range all {
+						if blockOf[j] >= b2 {
+							want2 = append(want2, all[j])
+						}
+					}
+					if off+off2 <= int64(len(data)) {
+						res2 := pbfScan(data[off+off2:], 1, func(s3 *Scanner) { s3.SkipNodes = skipNodes }, 0)
+						vAssert(!res2.Hung && res2.Panic == nil && res2.Err == nil)
+						vAssert(len(res2.Objects) == len(want2))
+					}
+					break
+				}
+			}
+		}
+	}
 }
 
 // C08: "Skipping element types or installing filter functions yields exactly
@@ -377,4 +414,32 @@ func oracleC08Filters(f PbfFile, skipN, skipW, skipR bool, mode int, procs int) 
 			vAssert(pbfSame(res.Objects[i], want[i]))
 		}
 	}
+}
+
+// C06, string references at the boundary: the string table of the last data
+// block is cut so that the largest index the block refers to is exactly the
+// table length (or, for other cut values, somewhere above it). Such a block is
+// damaged: the scan must end with an error after the objects of the intact
+// blocks, and must not crash.
+//
+//@ func oracleC06StringBoundary
+//@   props C06
+//@   oracle
+//@   covers osm/osmpbf.
+func oracleC06StringBoundary(f PbfFile, below int) {
+	pbfNormalize(&f)
+	vAssume(len(f.Blocks) > 0)
+	last := &f.Blocks[len(f.Blocks)-1]
+	m := pbfMaxRef(*last)
+	vAssume(m >= 1)
+	cut := m - pbfAbs(below)%3 // table length = largest reference, or one or two less
+	vAssume(cut >= 1)
+	last.CutStrings = cut
+	data, _, objs := pbfBuild(f)
+	res := pbfScan(data, 1, nil, 0)
+	vAssert(!res.Hung)
+	vAssert(res.Panic == nil)
+	vAssert(res.Err != nil)
+	want := pbfFlatten(objs, len(objs)-1)
+	vAssert(len(res.Objects) == len(want))
 }
